@@ -100,8 +100,8 @@ Bad(S) == {o \in S : ~o.ok}
 Total == Outs # {}
 \* at most one answer and at most one refusal; two outcomes only where the table declares a choice
 OutcomeShape == /\ Cardinality(Good(Outs)) <= 1
-         /\ Cardinality(Bad(Outs)) <= 1
-         /\ \A o \in Outs : o.ok => (o.ptr <=> RowC.r \in PointerKinds)
+                /\ Cardinality(Bad(Outs) \ {Fail(IMI)}) <= 1
+                /\ \A o \in Outs : o.ok => (o.ptr <=> RowC.r \in PointerKinds)
 UnknownSelector == ~Def => Outs = {Fail(IMI)}
 WrongKind == Def =>
     /\ (Tx.kind \notin RowC.k \cup RowC.g => Outs = {Fail(IMI)})
